@@ -9,6 +9,7 @@ Driver for the derivation model (C01).
   side = `station` | `client`; transport = min | obfs4 | prefix | dtls | unknown;
   params = `-` (field absent) | `g<0|1>` | `p<id>,<0|1>` | `d<0|1>`; cfg and draws as for `phantom|…`
   (the client side takes exactly one generation).
+`dtlscred|<side>|<secret>|<ver>` → `<psk> <hello random>` (DTLS: pre-shared key of the handshake per side).
 `sha256|<msg>`, `hmac|<key>|<msg>`, `hkdf|<secret>|<salt>|<info>|<n>`, `dtlshello|<secret>`: the Lean
 crypto on its own (differential test against Go's crypto/sha256, crypto/hmac, x/crypto/hkdf and
 pkg/dtls clientHelloRandomFromSeed).
@@ -136,6 +137,25 @@ def handleDtlsHello (args : List String) : Option String :=
   | [secret] => do
     some (toHex (CJ.SHA256.toList (CJ.HKDF.firstBytes (CJ.SHA256.ofList (← parseHex secret))
       "clientHelloRandomFromSeed".toUTF8 ByteArray.empty 28)))
+  | _ => none
+
+/-- `dtlscred|<side>|<secret>|<ver>` → `<psk> <hello random>`: the pre-shared key each side hands to the
+DTLS handshake and the ClientHello random derived from it (Lean HKDF) -/
+def handleDtlsCred (args : List String) : Option String :=
+  match args with
+  | [side, secret, ver] => do
+    let secret ← parseHex secret
+    let ver ← ver.toNat?
+    let hello : Bytes → Bytes := fun psk => CJ.SHA256.toList (CJ.HKDF.firstBytes (CJ.SHA256.ofList psk)
+      "clientHelloRandomFromSeed".toUTF8 ByteArray.empty 28)
+    let cred ← match side with
+      | "station" => some (dtlsCred hello (stationDtlsPsk secret))
+      | "client" =>
+        match specClientKeys slowCrypto ver secret with
+        | .ok keys => some (dtlsCred hello (clientDtlsPsk secret keys))
+        | _ => none
+      | _ => none
+    some s!"{toHex cred.psk} {toHex cred.helloRandom}"
   | _ => none
 
 end CJ.Drv.Derive
